@@ -51,24 +51,15 @@ META = {
 THEOREMS = [
     "ellipsoid_params", "ellipsoid_table_published", "llh2trs_on_normal", "trs2llh_lon", "trs2llh_mirror", "trs2llh_pole",
     "trs2llh_equator_lat", "halley_fixed_point_partial", "halley_exact_on_surface", "trs2llh_exact_on_sphere",
+    "trs2llh_exact_on_axis", "trs2llh_exact_on_equator",
     "check_trs2llh_sound", "check_llh2trs_sound", "geo_cert_tolerance",
-    "ellipsoid_preserved", "forwarding_ops_preserve", "check_flow_sound", "c05_ellipsoid_dropped_refuted",
+    "ellipsoid_preserved", "forwarding_table_all_true", "ellipsoid_preserved_today", "every_site_modelled",
+    "forwarding_ops_preserve", "check_flow_sound", "c05_ellipsoid_dropped_refuted",
 ]
 
 REQ = "From Verif Require Import Lib.Dyadic Model.C05_Geodetic Model.C05_Flow."
 ELLS = ["sphere", "WGS72", "GRS80", "WGS84", "IERS2003", "IERS2010", "DORIS"]     # order of Model.published_ellipsoids
 QUIRK = "c05_ellipsoid_dropped"
-
-TODAY_OBLIGATION = """From Coq Require Import List String.
-From Verif Require Import Gen.C05_EllipsoidFlow Model.C05_Flow Proofs.C05_Flow.
-(* the unconditional statement for the tree under test: its regenerated hand-over table forwards everywhere, hence ... *)
-Theorem forwarding_table_all_true : table_all_true forwarding_table = true.
-Proof. vm_compute. reflexivity. Qed.
-(* ... every operation list keeps the ellipsoid *)
-Theorem ellipsoid_preserved_today : forall dflt ops s, snd (run forwarding_table dflt ops s) = snd s.
-Proof. intros dflt ops s. apply ellipsoid_preserved_l. exact forwarding_table_all_true. Qed.
-Print Assumptions ellipsoid_preserved_today.
-"""
 
 
 # ----------------------------------------------------------------------------- helpers
@@ -223,18 +214,92 @@ def rows(a):
 
 
 # ----------------------------------------------------------------------------- object histories
-OPS_POS = ["OConvert", "OGetitem", "OSubset", "ODeepcopy", "OAddDelta", "OSubDelta", "ODiffRef", "OInsert", "OPos", "OView",
-           "OCreate", "OEmptyFrom"]
-OPS_PV = ["OConvert", "OGetitem", "OSubset", "ODeepcopy", "OAddDelta", "OSubDelta", "ODiffRef", "OInsert", "OPos", "OView",
-          "OCreate", "OFromPosvel"]
+KINDS = ["KPos", "KPosVel", "KDelta", "KPvDelta", "KVel", "KVelDelta"]          # Model.C05_Flow.kind_of_nat
+PA, PV, PDA, PVD = "PositionArray", "PosVelArray", "PositionDeltaArray", "PosVelDeltaArray"
+_P2 = ("KPos", "KPosVel")
+_D2 = ("KDelta", "KPvDelta")
+
+
+def _sites_table():
+    """the driver's copy of Model.C05_Flow.sites / kind_after (checked against the model inside Coq on every run:
+    check_sites); {(kind, op): ([site, ...], kind after)} for the applicable combinations"""
+    t = {}
+
+    def put(op, kinds, sites, after=None):
+        for k in kinds:
+            t[(k, op)] = (list(sites), after.get(k, k) if after else k)
+    put("OConvert", ["KPos"], [f"{PA}.convert_to#0"])
+    put("OConvert", ["KPosVel"], [f"{PV}.convert_to#0"])
+    put("OConvert", _D2, [f"{PDA}.convert_to#0"])
+    put("OConvert", ["KVel"], ["VelocityArray.convert_to#0"])
+    put("OConvert", ["KVelDelta"], ["VelocityDeltaArray.convert_to#0"])
+    put("OGetitem", _P2, [f"{PA}.__getitem__#0"])
+    put("OGetitem", _D2, [f"{PDA}.__getitem__#0", f"{PA}.__getitem__#0"])
+    put("OSubset", _P2, [f"{PA}.subset#0"])
+    put("OSubset", _D2, [f"{PDA}.subset#0", f"{PA}.subset#0"])
+    put("ODeepcopy", ["KPos"], [f"{PA}.__deepcopy__#0", f"{PA}.create#0"])
+    put("ODeepcopy", ["KPosVel"], [f"{PV}.__deepcopy__#0", f"{PV}.create#0"])
+    put("ODeepcopy", ["KDelta"], [f"{PDA}.__deepcopy__#0", f"{PDA}.create#0", f"{PA}.__deepcopy__#0", f"{PA}.create#0"])
+    put("ODeepcopy", ["KPvDelta"], [f"{PVD}.__deepcopy__#0", f"{PVD}.create#0", f"{PV}.__deepcopy__#0", f"{PV}.create#0"])
+    for o in ("OAddDelta", "OSubDelta"):
+        put(o, _P2, [f"{PA}.from_position#0"])
+        put(o, _D2, [f"{PDA}.from_position_delta#0"])
+    put("ODiffRef", _P2, [f"{PDA}.from_position#0"])
+    put("ODiff", _P2, [f"{PDA}.from_position#0"], {"KPos": "KDelta", "KPosVel": "KPvDelta"})
+    put("ORefPos", ["KDelta", "KVel"], [], {"KDelta": "KPos", "KVel": "KPos"})
+    put("ORefPos", ["KPvDelta", "KVelDelta"], [], {"KPvDelta": "KPosVel", "KVelDelta": "KPosVel"})
+    put("OInsert", _P2, [f"{PA}.insert#0"])
+    put("OInsert", _D2, [f"{PDA}.insert#0", f"{PA}.insert#0"])
+    put("OPos", ["KPos", "KDelta"], [])
+    put("OPos", ["KPosVel"], [f"{PV}.pos#0"], {"KPosVel": "KPos"})
+    put("OPos", ["KPvDelta"], [f"{PVD}.pos#0"], {"KPvDelta": "KDelta"})
+    put("OVel", ["KPosVel"], [f"{PV}.vel#0", f"{PV}.pos#0"], {"KPosVel": "KVel"})
+    put("OVel", ["KPvDelta"], [f"{PVD}.vel#0"], {"KPvDelta": "KVelDelta"})
+    put("OView", _P2, [f"{PA}.__array_finalize__#0"])
+    put("OCreate", ["KPos"], [f"{PA}.create#0"])
+    put("OCreate", ["KPosVel"], [f"{PV}.create#0"])
+    put("OCreate", ["KDelta"], [f"{PDA}.create#0"])
+    put("OCreate", ["KPvDelta"], [f"{PVD}.create#0"])
+    put("OEmptyFrom", ["KPos"], [f"{PA}.empty_from#0"])
+    put("OEmptyFrom", ["KDelta"], [f"{PDA}.empty_from#0", f"{PDA}.empty_from#1"])
+    put("OFromPosvel", ["KPosVel"], [f"{PV}.from_posvel#0"])
+    put("OWriteRead", ["KPos"], [f"{PA}._read#0", f"{PA}.create#0"])
+    put("OWriteRead", ["KPosVel"], [f"{PV}._read#0", f"{PV}.create#0"])
+    put("OWriteRead", ["KDelta"], [f"{PDA}._read#0", f"{PDA}.create#0", f"{PA}._read#0", f"{PA}.create#0"])
+    put("OWriteRead", ["KPvDelta"], [f"{PVD}._read#0", f"{PVD}.create#0", f"{PV}._read#0", f"{PV}.create#0"])
+    return t
+
+
+SITES = _sites_table()
+OPS_OF = {k: sorted({o for (kk, o) in SITES if kk == k}) for k in KINDS}
+# rare / expensive operations are drawn less often
+OP_WEIGHT = {"OWriteRead": 0.35, "OEmptyFrom": 0.5}
+
+
+def kind_of(obj):
+    return {"PositionArray": "KPos", "PosVelArray": "KPosVel", "PositionDeltaArray": "KDelta", "PosVelDeltaArray": "KPvDelta",
+            "VelocityArray": "KVel", "VelocityDeltaArray": "KVelDelta"}[obj.cls_name]
+
+
+def carrier_of(obj):
+    """the object whose .ellipsoid is the reference ellipsoid of obj"""
+    return obj if obj.cls_name in ("PositionArray", "PosVelArray") else obj.ref_pos
 
 
 def tag_of(obj):
     from midgard.math import ellipsoid as E
-    e = getattr(obj, "ellipsoid", None)
+    e = getattr(carrier_of(obj), "ellipsoid", None)
     if isinstance(e, E.Ellipsoid) and e.name in ELLS and E.get(e.name) is e:
         return ELLS.index(e.name)
     return 99
+
+
+def ell_name(obj):
+    try:
+        e = getattr(carrier_of(obj), "ellipsoid", None)
+    except Exception as ex:
+        return f"<{type(ex).__name__}>"
+    return getattr(e, "name", repr(e))
 
 
 def random_posvel(rng, n):
@@ -251,18 +316,45 @@ def random_posvel(rng, n):
     return np.array(out)
 
 
-def apply_op(rng, obj, op, other_ell):
+def write_read(obj, workdir, counter):
+    """Dataset.add_<type>(obj); write; read back; return the field of the new Dataset"""
+    from midgard.data import dataset
+    n = obj.shape[0]
+    ds = dataset.Dataset(num_obs=n)
+    k = kind_of(obj)
+    add = {"KPos": ds.add_position, "KPosVel": ds.add_posvel, "KDelta": ds.add_position_delta, "KPvDelta": ds.add_posvel_delta}[k]
+    add("fld", val=obj)
+    path = os.path.join(workdir, f"hist_{counter}.hdf5")
+    ds.write(path)
+    back = dataset.Dataset.read(path)
+    os.remove(path)
+    return back.fld
+
+
+def apply_op(rng, obj, op, other_ell, workdir="."):
     """apply one operation of the model's alphabet to a real object; returns the result or None when the operation is
     not applicable to this object (shape / system); exceptions propagate."""
+    import types
     from midgard.data import position as P
-    from midgard.data._position import PositionArray, PosVelArray
-    is_pv = obj.cls_name == "PosVelArray"
+    from midgard.data._position import PositionArray, PosVelArray, PositionDeltaArray, PosVelDeltaArray
+    k = kind_of(obj)
+    is_pv = k in ("KPosVel", "KPvDelta")
+    is_delta = k in _D2
     two_d = obj.ndim == 2
     n = obj.shape[0] if two_d else 1
+    mk_pos = P.PosVel if is_pv else P.Position
+    mk_delta = P.PosVelDelta if is_pv else P.PositionDelta
     if op == "OConvert":
-        if is_pv:
+        if k == "KPos":
+            return obj.llh if obj.system == "trs" else obj.trs
+        if k == "KPosVel":
             return obj.kepler if obj.system == "trs" else obj.trs
-        return obj.llh if obj.system == "trs" else obj.trs
+        if is_delta:
+            if obj.system == "trs":
+                return obj.acr if (is_pv and rng.random() < 0.4) else obj.enu
+            return obj.trs
+        # no conversion is registered for velocities: the classmethod itself with the identity as converter
+        return type(obj).convert_to(obj, lambda a: np.array(np.asarray(a)))
     if op == "OGetitem":
         if not two_d:
             return None
@@ -280,47 +372,93 @@ def apply_op(rng, obj, op, other_ell):
     if op in ("OAddDelta", "OSubDelta"):
         if obj.system != "trs":
             return None
-        mk = P.PosVelDelta if is_pv else P.PositionDelta
-        d = mk(np.full(obj.shape, 0.25), system="trs", ref_pos=obj)
+        if is_delta:
+            d = mk_delta(np.full(obj.shape, 0.5), system="trs", ref_pos=mk_pos(np.asarray(obj.ref_pos) + 3.0, system="trs", ellipsoid=other_ell))
+        else:
+            d = mk_delta(np.full(obj.shape, 0.25), system="trs", ref_pos=obj)
         return obj + d if op == "OAddDelta" else obj - d
-    if op == "ODiffRef":
+    if op in ("ODiffRef", "ODiff"):
         if obj.system != "trs":
             return None
-        mk = P.PosVel if is_pv else P.Position
-        o2 = mk(np.asarray(obj) + 1.0, system="trs", ellipsoid=other_ell)
-        return (obj - o2).ref_pos
+        o2 = mk_pos(np.asarray(obj) + 1.0, system="trs", ellipsoid=other_ell)
+        d = obj - o2
+        return d.ref_pos if op == "ODiffRef" else d
+    if op == "ORefPos":
+        return obj.ref_pos
     if op == "OInsert":
         if not two_d:
             return None
-        mk = P.PosVel if is_pv else P.Position
-        b = mk(np.asarray(obj)[:1] + 2.0, system=obj.system, ellipsoid=other_ell)
-        cls = PosVelArray if is_pv else PositionArray
+        if is_delta:
+            if obj.ref_pos.ndim != 2:
+                return None
+            rb = mk_pos(np.asarray(obj.ref_pos)[:1] + 2.0, system=obj.ref_pos.system, ellipsoid=other_ell)
+            b = mk_delta(np.asarray(obj)[:1] + 2.0, system=obj.system, ref_pos=rb)
+            cls = PosVelDeltaArray if is_pv else PositionDeltaArray
+        else:
+            b = mk_pos(np.asarray(obj)[:1] + 2.0, system=obj.system, ellipsoid=other_ell)
+            cls = PosVelArray if is_pv else PositionArray
         return cls.insert(obj, rng.randrange(n + 1), b, {})
     if op == "OPos":
-        return obj.pos if obj.system == "trs" else None      # there is no kepler Position system
+        if k == "KPosVel" and obj.system != "trs":
+            return None                                       # there is no kepler Position system
+        if k == "KPvDelta" and obj.system not in ("trs", "enu", "acr"):
+            return None
+        return obj.pos
+    if op == "OVel":
+        if obj.system != "trs":
+            return None
+        return obj.vel
     if op == "OView":
         if two_d and rng.random() < 0.5:
             return obj[[rng.randrange(n) for _ in range(rng.randrange(1, 4))]]
         return obj.copy()
     if op == "OCreate":
-        mk = P.PosVel if is_pv else P.Position
-        return mk(np.array(np.asarray(obj)), system=obj.system, ellipsoid=obj.ellipsoid)
+        if is_delta:
+            return mk_delta(np.array(np.asarray(obj)), system=obj.system, ref_pos=obj.ref_pos)
+        return mk_pos(np.array(np.asarray(obj)), system=obj.system, ellipsoid=obj.ellipsoid)
     if op == "OEmptyFrom":
-        return None if is_pv else PositionArray.empty_from(obj)
+        if k == "KPos":
+            return PositionArray.empty_from(obj)
+        # PositionDeltaArray.empty_from reads other.ref_pos, .system, .shape and .ellipsoid; a real delta has no .ellipsoid
+        # (AttributeError), so the two call sites are probed with a stub that carries exactly these attributes
+        if obj.system not in ("trs", "enu", "acr") or obj.ref_pos.cls_name != "PositionArray":
+            return None
+        stub = types.SimpleNamespace(ref_pos=obj.ref_pos, system=obj.system, shape=obj.shape, ellipsoid=obj.ref_pos.ellipsoid)
+        return PositionDeltaArray.empty_from(stub)
     if op == "OFromPosvel":
-        return PosVelArray.from_posvel(np.array(np.asarray(obj)), obj) if is_pv else None
+        return PosVelArray.from_posvel(np.array(np.asarray(obj)), obj)
+    if op == "OWriteRead":
+        if not two_d or (is_delta and obj.ref_pos.ndim != 2):
+            return None
+        apply_op.counter = getattr(apply_op, "counter", 0) + 1
+        return write_read(obj, workdir, apply_op.counter)
     raise ValueError(op)
 
 
-def gen_history(rng, E):
-    """run one random history on a real object; returns (case term, replay dict)"""
+TERMINAL = {("KPos", "OEmptyFrom"), ("KDelta", "OEmptyFrom"),
+            ("KPvDelta", "OPos")}      # posveldelta.pos is a PositionDelta whose ref_pos is a PosVel: outside the kind lattice
+
+
+def gen_history(rng, E, workdir, force=None):
+    """run one random history on a real object; returns (case data, replay dict).  force = (kind, op): a history that
+    reaches `kind` by the shortest route and then applies `op` (used to guarantee that every site is exercised)."""
     from midgard.data import position as P
     tag = rng.randrange(len(ELLS))
     ell = E.get(ELLS[tag])
     other = E.get(ELLS[rng.randrange(len(ELLS))])
-    posvel = rng.random() < 0.3
-    n = rng.choice([1, 2, 3, 5])
-    one_d = (not posvel) and rng.random() < 0.2
+    start_kind = rng.choice(["KPos", "KPos", "KPosVel"])
+    route = []
+    if force is not None:
+        fk, fo = force
+        start_kind = {"KPos": "KPos", "KDelta": "KPos", "KPosVel": "KPosVel", "KPvDelta": "KPosVel", "KVel": "KPosVel",
+                      "KVelDelta": "KPosVel"}[fk]
+        route = {"KPos": [], "KPosVel": [], "KDelta": ["ODiff"], "KPvDelta": ["ODiff"], "KVel": ["OVel"],
+                 "KVelDelta": ["ODiff", "OVel"]}[fk] + [fo]
+    elif rng.random() < 0.4:
+        route = ["ODiff"]                   # random histories on deltas (and from there velocities) as often as on positions
+    posvel = start_kind == "KPosVel"
+    n = rng.choice([2, 3, 5]) if force is not None else rng.choice([1, 2, 3, 5])
+    one_d = (not posvel) and force is None and rng.random() < 0.2
     if posvel:
         val = random_posvel(rng, n)
         obj = P.PosVel(val, system="trs", ellipsoid=ell)
@@ -328,27 +466,43 @@ def gen_history(rng, E):
         pts = [xyz_of(ell, math.asin(rng.uniform(-1, 1)), rng.uniform(-3, 3), rng.uniform(-1e4, 1e6)) for _ in range(n)]
         val = np.array(pts[0]) if one_d else np.array(pts)
         obj = P.Position(val, system="trs", ellipsoid=ell)
-    ops, observed, log = [], [], []
-    length = rng.choice([1, 1, 2, 3, 4, 6])
+    ops, observed, log, kinds = [], [], [], []
+    length = len(route) if force is not None else len(route) + rng.choice([1, 1, 2, 3, 4, 6])
     tries = 0
-    while len(ops) < length and tries < 30:
+    while len(ops) < length and tries < 40:
         tries += 1
-        is_pv = obj.cls_name == "PosVelArray"
-        op = rng.choice(OPS_PV if is_pv else OPS_POS)
-        res = apply_op(rng, obj, op, other)
+        k = kind_of(obj)
+        if len(ops) < len(route):
+            op = route[len(ops)]
+        else:
+            cands = OPS_OF[k]
+            op = rng.choice(cands)
+            if rng.random() > OP_WEIGHT.get(op, 1.0):
+                continue
+        res = apply_op(rng, obj, op, other, workdir)
         if res is None or not hasattr(res, "cls_name"):
+            if len(ops) < len(route) and force is None:
+                route = []
+                continue
+            if force is not None:
+                raise RuntimeError(f"forced history {force}: {op} not applicable to {type(obj).__name__}{obj.shape}")
             continue
+        want = SITES[(k, op)][1]
         ops.append(op)
+        kinds.append(k)
         t = tag_of(res)
         observed.append(t)
-        log.append(f"{op} -> {type(res).__name__}{tuple(res.shape)} ellipsoid={getattr(getattr(res, 'ellipsoid', None), 'name', repr(getattr(res, 'ellipsoid', None)))}")
-        if op == "OEmptyFrom" or res.ndim == 0:
+        log.append(f"{op} -> {type(res).__name__}{tuple(res.shape)} ellipsoid={ell_name(res)}")
+        if (k, op) in TERMINAL or res.ndim == 0:
             break
+        if kind_of(res) != want:
+            raise RuntimeError(f"{op} on {k} gave a {kind_of(res)}, the model says {want}")
         obj = res
-    rep = dict(kind="history", start=("PosVel" if posvel else "Position"), shape=list(np.shape(val)), ellipsoid=ELLS[tag],
-               other_ellipsoid=other.name, ops=ops, observed_tags=observed, observed=log,
-               how="Position/PosVel(val, system='trs', ellipsoid=E) then the operations in order (see harness/drivers/c05.py apply_op)")
-    return (posvel, tag, ops, observed), rep
+    rep = dict(kind="history", start=("PosVel" if posvel else "Position"), start_kind=start_kind, shape=list(np.shape(val)),
+               ellipsoid=ELLS[tag], other_ellipsoid=other.name, ops=ops, kinds=kinds, observed_tags=observed, observed=log,
+               how="Position/PosVel(val, system='trs', ellipsoid=E) then the operations in order (see harness/drivers/c05.py apply_op); "
+                   "the ellipsoid of a delta / velocity is that of its .ref_pos")
+    return (KINDS.index(start_kind), tag, ops, observed), rep
 
 
 # ----------------------------------------------------------------------------- the run
@@ -375,18 +529,14 @@ def run(ctx):
         return ctx.finish(level="proof", rule="unknown default ellipsoid")
     idef = ELLS.index(default)
 
-    # ---- 2. the unconditional statement for today's table
-    today = os.path.join(ctx.work, "C05_FlowToday.v")
-    with open(today, "w") as f:
-        f.write(TODAY_OBLIGATION)
-    core.make(["theories/Proofs/C05_Flow.vo", "theories/Gen/C05_EllipsoidFlow.vo"], timeout=1200)
-    rc, out = core.sh(f"timeout 600 coqc -Q {core.THEORIES} Verif -w none {today}", cwd=ctx.work, timeout=640)
-    today_ok = rc == 0 and ("Closed under the global context" in out or "Axioms:" in out)
-    ctx.log(f"forwarding_table_all_true / ellipsoid_preserved_today on the regenerated table: {'accepted' if today_ok else 'NOT accepted'}"
-            f" ({len(dropping)} of {len(sites)} constructor call sites drop the ellipsoid)")
-    if today_ok != (not dropping):
-        ctx.violation({"broken": "Coq and the generator disagree about the hand-over table", "log": out[-2000:],
-                       "dropping": [s["site"] for s in dropping]}, what="hand-over table inconsistent", found=False)
+    # ---- 2. the unconditional statement for today's table is part of Props/C05.v (forwarding_table_all_true,
+    #         ellipsoid_preserved_today, every_site_modelled): it breaks with the proof build when a site drops the hand-over
+    today_ok = ok
+    ctx.log(f"{len(dropping)} of {len(sites)} constructor call sites drop the ellipsoid / reference position")
+    unmodelled = [s_["site"] for s_ in sites if not any(s_["site"] in v[0] for v in SITES.values())]
+    if unmodelled:
+        ctx.violation({"broken": "constructor call sites that no operation of the flow model passes through", "sites": unmodelled},
+                      what="new constructor call site outside the flow model: " + ", ".join(unmodelled), found=False)
 
     # ---- 3. registered ellipsoids: runtime objects against the table and the derived parameters
     casesP, metaP = [], []
@@ -526,30 +676,40 @@ def run(ctx):
         ctx.case(("O", i, tuple(hexs(arr))), nontrivial=(i != idef))
     n_hist = 250 if ctx.quick() else 3000
     casesF, metaF = [], []
-    for _ in range(n_hist):
+    site_cov = {s_["site"]: 0 for s_ in sites}
+    forced = sorted(SITES)                      # one history per applicable (kind, operation): every site is exercised
+    plan = [f for f in forced] + [None] * n_hist
+    for force in plan:
         try:
-            (posvel, tag, ops, observed), rep = gen_history(rng, E)
+            (k0, tag, ops, observed), rep = gen_history(rng, E, ctx.work, force)
         except Exception as ex:
             import traceback
-            structural.append(dict(kind="exception", direction="object history", error=f"{type(ex).__name__}: {ex}",
+            structural.append(dict(kind="exception", direction="object history", forced=force, error=f"{type(ex).__name__}: {ex}",
                                    traceback=traceback.format_exc()[-1500:]))
             continue
         if not ops:
             continue
-        casesF.append(emit.pair(emit.nat(idef), emit.b(posvel), emit.nat(tag), emit.lst(ops), emit.lst(emit.nat(t) for t in observed)))
+        casesF.append(emit.pair(emit.nat(idef), emit.nat(k0), emit.nat(tag), emit.lst(ops), emit.lst(emit.nat(t) for t in observed)))
         metaF.append(rep)
-        for o in ops:
-            ctx.count(f"op:{'PosVel' if posvel else 'Position'}:{o}")
-        ctx.case(("F", posvel, tag, tuple(ops), tuple(rep["shape"])), nontrivial=(tag != idef), sample=rep if len(ctx.samples) < 4 else None)
+        for k_, o in zip(rep["kinds"], ops):
+            ctx.count(f"op:{k_}:{o}")
+            for st in SITES[(k_, o)][0]:
+                site_cov[st] = site_cov.get(st, 0) + 1
+        ctx.case(("F", k0, tag, tuple(ops), tuple(rep["shape"])), nontrivial=(tag != idef), sample=rep if len(ctx.samples) < 4 else None)
+    # the driver's table of sites against the model's
+    casesS, metaS = [], []
+    for (k_, o), (ss, after) in sorted(SITES.items()):
+        casesS.append(emit.pair(emit.nat(KINDS.index(k_)), o, emit.lst(emit.s(x) for x in ss), emit.nat(KINDS.index(after))))
+        metaS.append(dict(kind="sites_table", model_kind=k_, op=o, driver_sites=ss, driver_kind_after=after))
 
     # ---- 6. evaluate inside Coq
     size = 40
     groups = [("check_params", casesP, metaP), ("check_trs2llh", casesT, metaT), ("check_llh2trs", casesL, metaL),
               ("check_rt_trs", casesRT, metaRT), ("check_rt_llh", casesRL, metaRL), ("check_obj_rt", casesO, metaO),
-              ("check_flow", casesF, metaF)]
+              ("check_flow", casesF, metaF), ("check_sites", casesS, metaS)]
     shards, owner = [], []
     for fn, cases, meta in groups:
-        sh = emit.shard_terms(fn, cases, 400 if fn in ("check_rt_trs", "check_flow", "check_params") else size)
+        sh = emit.shard_terms(fn, cases, 400 if fn in ("check_rt_trs", "check_flow", "check_params", "check_sites") else size)
         shards += sh
         owner += [fn] * len(sh)
     ctx.log(f"{sum(len(g[1]) for g in groups)} cases in {len(shards)} shards")
@@ -592,6 +752,8 @@ def run(ctx):
                     ctx.finding(QUIRK, names[2], rep)
                 else:
                     ctx.violation(rep, what=f".ellipsoid changed along an operation history ({', '.join(sorted(culprit)) or 'no dropping site in the table explains it'})")
+            elif fn == "check_sites":
+                ctx.violation(rep, what="harness/drivers/c05.py SITES differs from Model.C05_Flow.sites / kind_after", found=False)
             else:
                 ctx.violation(rep, what=f"{fn}: {names.get(v, v)}")
     for rep in structural:
@@ -611,9 +773,18 @@ def run(ctx):
                           what="constructor call site does not hand the ellipsoid over: " + ", ".join(s["site"] for s in new),
                           found=bool(inputs))
     if not ok and not ctx.violations:
-        ctx.obligations_broken(lambda: None)
+        def search():
+            # a history that loses the ellipsoid is the concrete failing input of a broken forwarding_table_all_true
+            flat = verdicts.get("check_flow") or []
+            for v, rep in zip(flat, metaF):
+                if v != 0:
+                    return dict(rep, what="proof obligation broken; this operation history loses the ellipsoid")
+            return None
+        ctx.obligations_broken(search)
 
     extra = dict(forwarding_table=[dict(site=s["site"], forwards=s["forwards"], how=s["how"], line=s["line"]) for s in sites],
+                 site_coverage=[dict(site=s_["site"], histories_through_it=site_cov.get(s_["site"], 0)) for s_ in sites],
+                 sites_never_exercised=[s_["site"] for s_ in sites if not site_cov.get(s_["site"], 0)],
                  today_obligation=dict(theorems=["forwarding_table_all_true", "ellipsoid_preserved_today"], accepted=today_ok,
                                        note=("holds for the tree under test" if today_ok else
                                              "does NOT hold for the tree under test: " + ", ".join(s["site"] for s in dropping))),
@@ -644,27 +815,10 @@ def run(ctx):
 
 def culprit_sites(rep, site_by):
     """the dropping constructor call sites of the first operation after which the ellipsoid differs from the initial one"""
-    sites_of = {
-        ("OConvert", False): ["PositionArray.convert_to#0"], ("OConvert", True): ["PosVelArray.convert_to#0"],
-        ("OGetitem", None): ["PositionArray.__getitem__#0"], ("OSubset", None): ["PositionArray.subset#0"],
-        ("ODeepcopy", False): ["PositionArray.__deepcopy__#0", "PositionArray.create#0"],
-        ("ODeepcopy", True): ["PosVelArray.__deepcopy__#0", "PosVelArray.create#0"],
-        ("OAddDelta", None): ["PositionArray.from_position#0"], ("OSubDelta", None): ["PositionArray.from_position#0"],
-        ("ODiffRef", None): ["PositionDeltaArray.from_position#0"], ("OInsert", None): ["PositionArray.insert#0"],
-        ("OPos", False): [], ("OPos", True): ["PosVelArray.pos#0"], ("OView", None): ["PositionArray.__array_finalize__#0"],
-        ("OCreate", False): ["PositionArray.create#0"], ("OCreate", True): ["PosVelArray.create#0"],
-        ("OEmptyFrom", None): ["PositionArray.empty_from#0"], ("OFromPosvel", True): ["PosVelArray.from_posvel#0"],
-        ("OFromPosvel", False): [],
-    }
-    pv = rep["start"] == "PosVel"
     tag = ELLS.index(rep["ellipsoid"])
-    cur = tag
-    for op, t in zip(rep["ops"], rep["observed_tags"]):
-        ss = sites_of.get((op, pv), sites_of.get((op, None), []))
-        if t != cur:
-            return {s for s in ss if not site_by.get(s, {}).get("forwards", False)}
-        if op == "OPos":
-            pv = False
+    for k, op, t in zip(rep["kinds"], rep["ops"], rep["observed_tags"]):
+        if t != tag:
+            return {s for s in SITES[(k, op)][0] if not site_by.get(s, {}).get("forwards", False)}
     return set()
 
 
